@@ -3,9 +3,14 @@
     [Model/C08_World.v] speaks of calls with a footprint.  Stochastic components of pybrops are objects (mating, phenotyping and
     selection protocols, selection configurations, optimisers) that hold a reference to a generator: the global numpy stream
     when constructed with rng = None, the caller's generator otherwise.  The library's copy routes ([copy.copy], [copy.deepcopy],
-    [.copy()], [.deepcopy()] of G_E_Phenotyping: "rng = self.rng, # should not be copied") yield a new object holding THE SAME
-    generator: the copy's footprint is the source's footprint and no generator is allocated.  A copy that snapshots the generator
-    ([SSnap], what copy.deepcopy(self.rng) does) allocates a private generator whose state is the source's state at copy time.
+    [.copy()], [.deepcopy()] of G_E_Phenotyping: "rng = self.rng, # should not be copied"; the [__deepcopy__] every other stochastic class
+    inherits from its base class, which deep-copies every attribute but the generator; python's default shallow copy) yield a new object
+    holding THE SAME generator: the copy's footprint is the source's footprint and no generator is allocated.  A copy that snapshots the
+    generator ([SSnap]: what copy.deepcopy(self.rng) does, and what python's default deep copy did to these classes before they had a
+    [__deepcopy__]) allocates a private generator whose state is the source's state at copy time.
+
+    The rng property setter of a protocol that built default optimisers re-points the protocol AND those optimisers ([rng_setter]);
+    formerly only the protocol ([old_rng_setter]).
 
     Definitions only.  A program of steps is compiled to the calls of [W] under an environment object -> location. *)
 From Coq Require Import List ZArith NArith Bool.
@@ -31,7 +36,20 @@ Section Obj.
   | SNew (d : nat) (l : loc)           (* constructor: rng = None -> LNp ; rng = generator i -> LEx i *)
   | SCopy (d s : nat)                  (* copy / deepcopy / .copy() / .deepcopy() of object s: object d holds the SAME generator *)
   | SUse (o : nat) (f : G -> O * G)    (* a stochastic method of object o: reads and advances the generator o holds *)
-  | SSnap (d s : nat) (j : nat).       (* FAULTY copy: allocates generator j := current state of s's generator; d holds j *)
+  | SSnap (d s : nat) (j : nat).       (* FAULTY copy (former code only): allocates generator j := current state of s's generator; d holds j *)
+
+  (** the deep copy of a stochastic component.  Current code: the inherited [__deepcopy__] hands the generator over by reference.
+      Former code ([old_]): python's default deep copy duplicated the generator (a private generator j). *)
+  Definition deepcopy_step (d s : nat) : step := SCopy d s.
+  Definition old_default_deepcopy_step (d s j : nat) : step := SSnap d s j.
+
+  (** [prot.rng = <generator at l>] for a protocol object [prot] whose constructor built the default optimiser object [algo].
+      Current code: the protocol is re-bound and the default optimiser follows it.  Former code ([old_]): only the protocol was re-bound,
+      the optimiser kept the generator it was constructed with. *)
+  Definition rng_setter (prot algo : nat) (l : loc) : list step := [SNew prot l; SCopy algo prot].
+  Definition old_rng_setter (prot algo : nat) (l : loc) : list step := [SNew prot l].
+  (** any sequence of stochastic calls on given objects *)
+  Definition uses (us : list (nat * (G -> O * G))) : list step := map (fun u => SUse (fst u) (snd u)) us.
 
   Definition use_call (l : loc) (f : G -> O * G) : call G O :=
     mkcall [l] [l] (fun w => let '(o, g) := f (w l) in (o, upd w l g)).
@@ -94,5 +112,7 @@ Arguments SCall {G O} c. Arguments SNew {G O} d l. Arguments SCopy {G O} d s. Ar
 Arguments compile {G O} out_unit e p. Arguments run_obj {G O} out_unit p e w. Arguments env_after {G O} e p.
 Arguments step_env {G O} e s. Arguments step_call {G O} out_unit e s.
 Arguments wf {G O} A e p. Arguments clean {G O} s. Arguments only {G O} i e p.
+Arguments deepcopy_step {G O} d s. Arguments old_default_deepcopy_step {G O} d s j.
+Arguments rng_setter {G O} prot algo l. Arguments old_rng_setter {G O} prot algo l. Arguments uses {G O} us.
 Arguments use_call {G O} l f. Arguments snap_call {G O} out_unit src j. Arguments nop_call {G O} out_unit.
 End OB.
